@@ -272,7 +272,10 @@ def prefix_subst(loops):
             if info.get('kind') == 'sum' and 'body' in info:
                 kk = T.sym('%s<%s' % (ls.idx[1], info['label']))
                 bk = T.subst(info['body'], {ls.idx: kk})
-                m[info['pre']] = T.add(info['init'], ('sum', kk, ls.lo, ls.idx, bk))
+                if not T.occurs(bk, kk):
+                    m[info['pre']] = T.add(info['init'], T.mul(bk, T.sub(ls.idx, ls.lo)))
+                else:
+                    m[info['pre']] = T.add(info['init'], ('sum', kk, ls.lo, ls.idx, bk))
     # the init of an inner reduction may itself be a placeholder of an outer loop
     for _ in range(3):
         m = {k: T.subst(v, m) for k, v in m.items()}
